@@ -5,6 +5,7 @@ package interp
 
 import (
 	"fmt"
+	"unsafe"
 	"go/token"
 	"go/types"
 	"strings"
@@ -649,5 +650,5 @@ func (i *interpreter) monitorCopy(dst []value, n int) {
 
 // unsafeString implements unsafe.String(p, n) for p pointing into a []value.
 func (i *interpreter) unsafeString(p *value, n int) value {
-	panic(engineAbort{kind: abortUnsupported, msg: "unsafe.String"})
+	return normStr(append([]value{}, unsafe.Slice(p, n)...))
 }
